@@ -11,3 +11,9 @@ def plans(tier):
     sim = [dict(cfg="HOLD2", depth=14, maxtime=4, alpha=["cer", "req", "dpr", "resub", "dwr"], num=400 if th else 80, maxconn=4, pairs=False),
            dict(cfg="B", depth=14, maxtime=6, alpha=["cea", "req", "dpr", "resub"], num=400 if th else 80, maxconn=4, pairs=False)]
     return mc, sim
+
+
+def enum_plans(tier):
+    th = tier == "thorough"
+    # two connections, the same identifiers in flight on both, answers submitted in every order
+    return [dict(cfg="HOLD2", depth=8 if th else 7, maxtime=0, alpha=["cerok", "req1"], faults=False, maxconn=2)]
